@@ -450,7 +450,9 @@ def rule_A3(ctx, rid='A3'):
            else 'crossed merge: %s' % crossed)
     # the cache
     okc = any(isinstance(st, ast.Assign) and dotted(st.targets[0]) == 'self.points' and
-              'bound.points' in unparse(st.value) and 'self.points' in unparse(st.value)
+              isinstance(lp.target, ast.Name) and
+              (lp.target.id + '.points') in unparse(st.value) and
+              'self.points' in unparse(st.value)
               for lp in walk_no_nested(f.node) if isinstance(lp, ast.For) for st in lp.body)
     ctx.ob(rid, 'NautilusBound.sample:merge(cache)', okc, f.where(),
            'worker proposals are stacked into the cache after the existing ones')
